@@ -140,6 +140,7 @@ opaque(PE, "ProtocolEntity._generateId", event="generateId", returns=Str)
 
 @contract(IQL, "YowIqProtocolLayer.recvIq")
 def recvIq(self: Obj("YowIqProtocolLayer"), node: Obj("ProtocolTreeNode")):
+    modifies(ProtocolEntity._ProtocolEntity__ID_GEN)      # a ping without id is answered under a freshly generated one (process-wide counter)
     ensures(n_events("toLower") == (1 if attr(node, "xmlns") == "urn:xmpp:ping" else 0) and n_events("toUpper") == 0)
     ensures(implies(attr(node, "xmlns") == "urn:xmpp:ping",
                     event_arg("toLower", 0).tag == "iq"
